@@ -5,6 +5,7 @@ mod c08;
 mod c12x;
 mod c13;
 mod c14;
+mod c15;
 mod c16;
 mod c17;
 mod canon;
@@ -101,6 +102,7 @@ fn main() {
         "c02" => rt::main(&a, gen_dom::Fmt::Xml),
         "domops" => domops::main(&a),
         "sstr" => sstr::main(&a),
+        "c15" => c15::main(&a),
         "c16" => c16::main(&a),
         "c17" => c17::main(&a),
         "c06" => c06::main(&a),
